@@ -129,6 +129,13 @@ structure Env where
   plan : Nat → Bool
   xml : Xml
   stopFailKills : Bool
+  /-- `Camera::open` opens the control handle before the stream handle (`true`, what the code
+  does today) or after it.  The two operations are independent and the property does not order
+  them, so the order is a parameter: the correspondence run reads it off the implementation's
+  own trace and every theorem holds for both values. -/
+  openCtrlFirst : Bool := true
+  /-- same for the two handle closes of `Camera::close` -/
+  closeCtrlFirst : Bool := true
 
 /-- Camera computations: state transformer with `Res` outcome (`?` = bind). -/
 def M (α : Type) : Type := State → Res Err α × State
@@ -241,10 +248,13 @@ def paramsCtxt : M Xml := fun s =>
   | some x => (.ok x, s)
   | none => (.err .ctxtMissing, s)
 
+/-- two independent handle operations, each with `?`, in the order given by `ctrlFirst` -/
+def handlePair (ctrlFirst : Bool) (c s : M Unit) : M Unit :=
+  if ctrlFirst then (do c; s) else (do s; c)
+
 /-- `Camera::open`: `self.ctrl.open()?; self.strm.open()?; Ok(())` -/
-def openCam (env : Env) : M Unit := do
-  ctrlOpenOp env
-  strmOpenOp env
+def openCam (env : Env) : M Unit :=
+  handlePair env.openCtrlFirst (ctrlOpenOp env) (strmOpenOp env)
 
 /-- `Camera::load_context`: `let xml = self.ctrl.genapi()?; self.ctxt = Some(Ctxt::from_xml(&xml)?)`.
 A new context has an empty cache. -/
@@ -301,8 +311,7 @@ def stopStreaming (env : Env) : M Unit := do
 then `ctxt.clear_cache()` when a context is loaded. -/
 def closeCam (env : Env) : M Unit := do
   stopStreaming env
-  ctrlCloseOp env
-  strmCloseOp env
+  handlePair env.closeCtrlFirst (ctrlCloseOp env) (strmCloseOp env)
   modifyDev (fun d => { d with cache := Cache.empty })
 
 /-- "params access": `camera.params_ctxt()?` then the value of one cacheable integer
